@@ -101,17 +101,25 @@ def check_case(case):
         calls = {"trans_orientation": lambda: det.trans_orientation(img, *o), "trans_orientation_inv": lambda: det.trans_orientation(img, *o, "inverse"),
                  "image_flipping": lambda: det.image_flipping(img, *o), "image_flipping_inv": lambda: det.image_flipping(img, *o, "inverse"),
                  "detyz_to_xy": lambda: det.detyz_to_xy([0, 0], *o, 3, 2), "xy_to_detyz": lambda: det.xy_to_detyz([0, 0], *o, 3, 2)}
-        for name, fn in calls.items():
+        import xfab
+
+        for switch in (True, False):  # environment: the input-check switch of xfab.checks must not govern this validation
+            xfab.CHECKS.activated = switch
             try:
-                fn()
-                out = "accepted"
-            except ValueError:
-                out = "ValueError"
-            except Exception as ex:
-                out = repr(ex)
-            want = "accepted" if o in VALID else "ValueError"
-            r.require(out == want, "o=%s:%s" % (o, name), "orientation matrix accepted iff it is one of the eight valid ones", want, out)
-            r.transitions += 1
+                for name, fn in calls.items():
+                    try:
+                        fn()
+                        out = "accepted"
+                    except ValueError:
+                        out = "ValueError"
+                    except Exception as ex:
+                        out = repr(ex)
+                    want = "accepted" if o in VALID else "ValueError"
+                    r.require(out == want, "o=%s:%s%s" % (o, name, "" if switch else ":CHECKS-off"),
+                              "orientation matrix accepted iff it is one of the eight valid ones (CHECKS.activated = %s)" % switch, want, out)
+                    r.transitions += 1
+            finally:
+                xfab.CHECKS.activated = True
         r.states = 1
         if o in VALID:
             r.nontrivial.add("valid%s" % (o,))
